@@ -83,6 +83,11 @@ theorem Inv.of_core {text : List UInt8} {δ : Int} {s s' : S} (h : Inv text δ s
     by rw [h1, ho]; exact h.head, by rw [h3, ho]; exact h.loc,
     by rw [h1, h3, h4, h5]; exact h.ahead, by rw [h4, hchr]; exact h.dot⟩
 
+theorem Inv.off_le {text : List UInt8} {δ : Int} {s : S} (h : Inv text δ s) : off s ≤ text.length := by
+  have := h.pos_le
+  unfold off
+  split <;> omega
+
 theorem inp_ne_of_chr {s : S} {c : UInt8} (h : s.chr = some c) : s.inp ≠ [] := by
   intro hn; simp [S.chr, hn] at h
 
